@@ -130,7 +130,7 @@ def check_cnt(case):
     for a, b in zip(order[:-1], order[1:]):
         if dGs[a] > 0 and np.isfinite(Jss[a]) and np.isfinite(Jss[b]) and Jss[a] >= 0 and Jss[b] >= 0:
             if Jss[b] < Jss[a] * (1 - 1e-9):
-                out.fail("rate_not_monotone_in_dG", "J_ss(dG=%r)=%r > J_ss(dG=%r)=%r" % (dGs[a], Jss[a], dGs[b], Jss[b]))
+                out.fail("rate_not_monotone_in_dG", "J_ss(dG=%r)=%r > J_ss(dG=%r)=%r" % (float(dGs[a]), float(Jss[a]), float(dGs[b]), float(Jss[b])), quantity="J", dG=float(dGs[b]), gb=gb)
     if clamped_any:
         out.label("clamped_radius")
     out.nt(bool(np.any(dGs > 0)) and (not gb or case["kfrac"] > 0.05))
